@@ -8,6 +8,7 @@
  *   htadd n            add n nodes to the AUTO_RESIZE table (queues lazy resizes on the worker)
  *   sync | barrier     synchronize_rcu / rcu_barrier
  *   lock | unlock      read-side section of the forking thread (never across fork for the flavors other than bp)
+ *   (cfg childmask bit 6: the child itself forks once more, bracketed by the handlers, and waits for the grandchild)
  *   fork               call_rcu_before_fork [+ urcu_bp_before_fork]; fork(); handlers in parent and child; the child runs its steps and exits; the
  *                      parent waits for it and goes on
  *   yield
@@ -97,9 +98,12 @@ static void check_all_ran_once(const char *who)
 		if (get_ran(i) != 1) ds_fail("%s: after rcu_barrier() callback %d has run %d times (exactly once expected)", who, i, get_ran(i));
 }
 
+static void do_fork(void);
+static int generation;
 static void child_main(void)
 {
 	long mask = ds_cfg("childmask", 63);
+	generation++;
 #ifdef FL_BP
 	urcu_bp_after_fork_child();
 #endif
@@ -108,6 +112,8 @@ static void child_main(void)
 	if (mask & 2) F(synchronize_rcu)();
 	if (mask & 4) { int i = new_cb(); RLOCK(); F(call_rcu)(&cbs[i].rh, cb_fn); RUNLOCK(); }
 	if (mask & 8) { if (ht) ht_add(12); }
+	/* second generation: the child forks again with the handlers (while its own re-created helpers may be busy) */
+	if ((mask & 64) && generation == 1) { ds_flag(CF_FORKED_TWICE); do_fork(); }
 	F(barrier)();
 	check_all_ran_once("child");
 	if ((mask & 16) && ht) ht_check_and_empty("child");
